@@ -1405,21 +1405,22 @@ def filename_to_suite_name_parts(filename):
         if filenameParts[i] != cwdParts[i]:
             break
 
+    suiteNameParts = []
     if i < len(filenameParts) - 1:
 
         # The real package name couldn't have a '.' in it. This
         # makes sense for the common egg naming patterns, and
         # will still work in other cases
 
-        suiteNameParts = []
         for part in reversed(filenameParts[i:-1]):
             if '.' in part:
                 break
             suiteNameParts.insert(0, part)
 
-        # don't lose the filename, which would have a . in it
-        suiteNameParts.append(filenameParts[-1])
-        return suiteNameParts
+    # don't lose the filename, which would have a . in it
+    # (a bare relative file name has no directory part at all)
+    suiteNameParts.append(filenameParts[-1])
+    return suiteNameParts
 
 
 def parse_doc_file_case(test):
